@@ -43,6 +43,8 @@ def header_writes(prog, fn):
                     n, kind = o.data.get("n"), ("zero" if const_val(o.data["a"]) == 0 else "fill")
                 elif o.kind == "param":
                     ty = fn.local_ty(o.data)
+                    if ty.startswith(("&[u8; ", "&mut [u8; ")) and not [p_ for p_ in o.proj if p_ != "deref"]:
+                        ty = ty[ty.index("["):]          # the signature passed by reference
                     if ty.startswith("[u8; "):
                         n, kind = int(ty[5:-1]), "sig"
                 elif o.kind == "agg" and o.data.get("agg") == "array":
